@@ -664,6 +664,8 @@ func propC20(c *Check) {
 	c.Rule("R1", "every runtime store to Params.DepositTaxRate / MinDepositAmount / ConfirmationNumber is dominated by a guard on the very value stored: rate < 10000 (MaxTaxBP), amount > 1000 (DustTxoutAmount), number >= 1")
 	c.Rule("R2", "the divisor of the tax formula is the same constant as the rate bound and division precedes multiplication")
 	c.Rule("R3", "bitcoin Params are written only by ProcessBridgeRequest and InitGenesis; NetworkName and DepositMagicPrefix are never stored at runtime")
+	c.Rule("R4", "out-of-range requests are ignored as a whole: every parameter store fed from a request element is reached under the same request-dependent guards as the other stores fed from that element")
+	c.requestsAppliedAtomically("R4")
 	pt := p.LookupType("x/bitcoin/types", "Params")
 	maxBP, _ := constant.Int64Val(constant.ToInt(p.LookupObj("x/bitcoin/types", "MaxTaxBP").(*types.Const).Val()))
 	dust, _ := constant.Int64Val(constant.ToInt(p.LookupObj("x/bitcoin/types", "DustTxoutAmount").(*types.Const).Val()))
